@@ -112,6 +112,8 @@ def gen_type(rng, depth, lit_ok=True, hashable=False, allow=None, no_dc=False):
                 ms.append(m)
         if rng.random() < 0.3:
             ms.append(Ty('none'))
+        if NO_ANY_IN_UNIONS:
+            ms = [m for m in ms if not _has_any(m)] or [Ty('int')]
         ms = dedupe_members(ms)
         if len(ms) < 2:
             return ms[0]
@@ -139,7 +141,11 @@ def gen_type(rng, depth, lit_ok=True, hashable=False, allow=None, no_dc=False):
     if k == 'ndarray':
         return Ty('ndarray', dtype=rng.choice((None, 'int', 'float', 'float') if NDARRAY_ANY_LEAVES else ('int', 'float', 'float')))
     if k == 'vol':
-        return Ty('vol', [g(no_dc=True)])
+        # ValueOrList[T] is only unambiguous when T itself is not read from a sequence
+        inner = gen_leaf(rng, False, allow) if rng.random() < 0.7 else Ty('dict', [Ty('str'), gen_leaf(rng, False, allow)])
+        if inner.k in ('any', 'enum') and (inner.k == 'any' or any(isinstance(v, tuple) for _, v in inner.x['members'])):
+            inner = Ty('int')
+        return Ty('vol', [inner])
     return gen_leaf(rng, hashable, allow)
 
 
@@ -296,6 +302,15 @@ def gen_class(rng, depth, *, naming=True, variant_tag=None, allow=None, simple=F
 INIT_FALSE_IMPLIES_EXCLUDE = False
 # object-dtype arrays holding arbitrary containers are outside what the docs describe; round-trip workloads use typed dtypes
 NDARRAY_ANY_LEAVES = True
+# a union with an Any-reading member ahead of others is degenerate for fixed-point checks (Any re-reads every serialised form)
+NO_ANY_IN_UNIONS = False
+
+
+def _has_any(ty, depth=0):
+    if ty.k == 'any' or ty.x.get('bare'):
+        return True
+    kids = list(ty.a) + ([f.ty for f in ty.x['spec'].fields if f.name != '_KW_ONLY_'] if ty.k == 'dc' else [])
+    return depth < 8 and any(_has_any(c, depth + 1) for c in kids)
 
 TAG_POOLS = (('v1', 'v2', 'v3', 'v4'), (1, 2, 3, 4), ('a', 2, None, True), (10, 'ten', 10.5, b'x'))
 
